@@ -40,6 +40,11 @@ def run(tier, seed):
     small, struct = c07.jobs_for("quick", seed)
     struct = [j for j in struct if j[0] <= 5 or (j[2] % (3 if tier == "thorough" else 9) == seed % 3)]
     cands = []
+    for job, r in harness.pmap(c07._routed_job, [(n, conn, seed * 31 + 7 * n + len(conn), tier) for (n, conn) in coupling_spec.ADVERTISED if n >= 3]):
+        res = core.Result.from_json(r["res"])
+        ck.add("compress user-style programs %d-%s" % job[:2], res, sample=0)
+        for c in r["cands"]:
+            cands.append(("compress routed n=%d %s %s" % (c["n"], c["conn"], c["gates"]), c, "compress, %d-%s program %s: %s" % (c["n"], c["conn"], c["gates"], c["label"])))
     for job, r in harness.pmap(c07._struct_job, struct, progress=1000):
         res = core.Result.from_json(r["res"])
         ck.add("compress %d-%s" % job[:2], res, sample=0)
